@@ -683,7 +683,7 @@ func TestPgWirePrograms(t *testing.T) {
 		h.g = &gen{rt: rt, c: c, prefix: fmt.Sprintf("p%d", pgSeq), noUnique: true, noNUL: true,
 			// the pgsql front-end turns CREATE TABLE into CREATE TABLE IF NOT EXISTS
 			skipFail: map[string]bool{"fail-table-exists": true},
-			types: []sqlgen.Type{sqlgen.TInt, sqlgen.TInt, sqlgen.TVarchar, sqlgen.TVarchar, sqlgen.TBool}}
+			types:    []sqlgen.Type{sqlgen.TInt, sqlgen.TInt, sqlgen.TVarchar, sqlgen.TVarchar, sqlgen.TBool}}
 		h.obs, err = p.db.Conn(bg)
 		if err != nil {
 			rt.Fatalf("connect: %v", err)
